@@ -40,8 +40,8 @@ RULE = ('random sequential .zmx texts written by vkit/oracles/zmxwriter.py: 1-30
         'non-ASCII text in NAME / NOTE / COMM; 85 % are constrained to paraxially sane lenses, 15 % unconstrained; '
         'plus MODE NSC files.  Non-trivial = sequential file with >= 2 powered interfaces; distinct = distinct '
         'prescription hash')
-TIERS = {'quick': dict(shards=12, cases=70), 'thorough': dict(shards=16, cases=1500)}
-MIN_NONTRIVIAL = {'quick': 500, 'thorough': 15000}
+TIERS = {'quick': dict(shards=12, cases=55), 'thorough': dict(shards=16, cases=1000)}
+MIN_NONTRIVIAL = {'quick': 400, 'thorough': 10000}
 MIN_EVALS = {
     'load-utf-8': dict(quick=100, thorough=3000), 'load-utf-16': dict(quick=100, thorough=3000),
     'surface-count': dict(quick=250, thorough=8000), 'radii': dict(quick=250, thorough=8000),
